@@ -182,6 +182,14 @@ func c3GenScenario(t *simrt.Tape) *c3Scenario {
 	n := t.W(61)
 	re := regexp.MustCompile(`^(\S+) (\S+) (\S+)$`)
 	sc.Regex = `^(\S+) (\S+) (\S+)$`
+	emptyWord := false
+	if sc.Kind == "histo" && t.WBool(1, 4) {
+		// the first word may be empty (` w2 5`): the empty string is a key like any other when an increment follows it
+		sc.Regex = `^(\S*) (\S+) (\S+)$`
+		re = regexp.MustCompile(sc.Regex)
+		emptyWord = true
+		w1[0] = ""
+	}
 	if sc.Kind == "reduce" || sc.Kind == "analyze" || sc.Kind == "reduce-ordered" {
 		sc.Regex = `^(\S+) (\S+) (-?\d+)$`
 		re = regexp.MustCompile(sc.Regex)
@@ -221,7 +229,7 @@ func c3GenScenario(t *simrt.Tape) *c3Scenario {
 	if t.WBool(1, 4) && regexp.MustCompile(`^[A-Za-z0-9]+$`).MatchString(w1[0]) {
 		sc.Ignore = w1[0]
 	}
-	inc := t.WBool(1, 2)
+	inc := t.WBool(1, 2) || emptyWord
 	common := []string{"--nocolor", "--noformat", "--notrim"}
 	switch sc.Kind {
 	case "histo":
@@ -1133,8 +1141,8 @@ func c3CheckHistoSnapshot(rc *RunCtx, ref *c3Ref, o *c3Out, ctx func() string, a
 		}
 	}
 	for k := range ref.Hist {
-		if strings.ContainsAny(k, "\n\r") || strings.Contains(k, "    ") {
-			return
+		if strings.ContainsAny(k, "\n\r") || strings.Contains(k, "    ") || strings.TrimSpace(k) != k {
+			return // (a key that begins or ends with a space cannot be told from the padding around it)
 		}
 	}
 	got := map[string]string{}
